@@ -51,6 +51,39 @@ impl ShortMessageFactory for Foreign3 {
     }
 }
 
+/// Third-party implementor with a STRICTER `from_bytes` (an input-driver type that refuses the four
+/// undefined status bytes): the provided constructors must not depend on overridable methods, so
+/// they have to keep working for these status bytes.
+#[derive(Clone, Copy, PartialEq, Eq, Debug)]
+pub struct ForeignStrict {
+    pub s: u8,
+    pub d1: U7,
+    pub d2: U7,
+}
+impl ShortMessage for ForeignStrict {
+    fn status_byte(&self) -> u8 {
+        self.s
+    }
+    fn data_byte_1(&self) -> U7 {
+        self.d1
+    }
+    fn data_byte_2(&self) -> U7 {
+        self.d2
+    }
+}
+impl ShortMessageFactory for ForeignStrict {
+    unsafe fn from_bytes_unchecked(b: (u8, U7, U7)) -> Self {
+        ForeignStrict { s: b.0, d1: b.1, d2: b.2 }
+    }
+    fn from_bytes(b: (u8, U7, U7)) -> Result<Self, FromBytesError> {
+        if b.0 < 0x80 || matches!(b.0, 0xF4 | 0xF5 | 0xF9 | 0xFD) {
+            // the error type has no public constructor: borrow one from the crate
+            return Err(RawShortMessage::from_bytes((0, U7::MIN, U7::MIN)).unwrap_err());
+        }
+        Ok(unsafe { Self::from_bytes_unchecked(b) })
+    }
+}
+
 /// Third-party implementor that overrides `to_bytes` (consistently) and stores the bytes packed.
 #[derive(Clone, Copy, PartialEq, Eq, Debug)]
 pub struct ForeignBytes(pub u32);
